@@ -14,9 +14,9 @@ CLAIMED = {
    note="Trusted: Coq kernel, extraction, glue; IP/CIDR text parsing (std, cidr crate - lenient about text forms) and regex are oracles; the relay after establishment is C01's subject (here only that the payload reaches the selected upstream in buffered mode).",
    tech="Rocq proof over an effect-trace model + differential correspondence with an independent decision oracle"),
  "C09": dict(
-   text="The parser model (a PEG interpreter mirroring the nom combinators) is instantiated with the operator ladder REGENERATED from milu/src/parser.rs on every run and checked inside Rocq against the documented table regenerated from milu/readme.md: every documented operator and spelling, every ordered pair (precedence, associativity), every ordered triple over the precedence levels, unary/postfix/conditional/scope interactions, tag-shadowing discipline of ordered choice, and blank/comment fillers at every token boundary of sample forms - each a complete enumeration evaluated by vm_compute. Tie: the extracted parser model vs milu::parser::parse on exhaustive pairs/triples, random trees to depth 5 in four spellings, and a lexical edge list, with an independently written expected-tree oracle.",
-   note="Partial: the unbounded statement parse(print e) = e for all trees and all fillers is not proved (the finite families above are); template strings are outside the model; nom is modelled. Trusted: Coq kernel, vm_compute, translator, extraction, glue.",
-   tech="Rocq finite-domain theorems over a translator-instantiated parser model + differential correspondence"),
+   text="The parser model (a PEG interpreter mirroring the nom combinators) is instantiated with the operator ladder REGENERATED from milu/src/parser.rs on every run and checked inside Rocq against the documented table regenerated from milu/readme.md. Unbounded theorem C09_parse_print_roundtrip (MiluRoundtrip.v, induction over trees and fuel): every well-formed expression tree of any size and depth - identifiers, decimal literals, every binary operator of every ladder level, unary operators, index, member access, calls, the conditional - printed with only the parentheses precedence and associativity require parses back to exactly the documented AST, with the fuel parse itself supplies; C09_blank_irrelevant: any run of white space and closed # and /* */ comments is skipped whatever it contains. Finite theorems by complete enumeration (vm_compute): every documented operator and spelling, every ordered pair and triple (precedence, associativity), unary/postfix/conditional/scope interactions, tag-shadowing discipline of ordered choice. Tie: the extracted parser model vs milu::parser::parse on exhaustive pairs/triples, random trees in four spellings and a lexical edge list with an independently written expected-tree oracle; the theorem's own printer m_print is run on random well-formed trees and the real parser must return m_denote.",
+   note="Partial: the round-trip theorem is stated for the one-space canonical printing; blank/comment fillers at arbitrary token boundaries are covered by the skip lemma plus finite enumerations, not by one combined theorem; let/array/tuple/string literals are outside the theorem's tree type (covered by the differential check); template strings are outside the model; nom is modelled. Trusted: Coq kernel, vm_compute, translator, extraction, glue.",
+   tech="Rocq proof (unbounded parse/print round trip by induction over a translator-instantiated parser model; finite-domain enumeration theorems) + differential correspondence"),
  "C11": dict(
    text="Rocq theorems over a Gallina model of src/common/fragment.rs: sender cover, refinement of reassembly to a seen-set spec for every arrival order with duplicates, exactly-once outside the known duplicate-cover class, id independence for every interleaving, garbage and inconsistent fragments yield nothing, timer discards, no panic in any reachable state. The model is tied to the code by a differential correspondence check of the extracted model against the hook-built implementation plus an implementation-only oracle.",
    note="Trusted: Coq kernel, ExtrOcamlBasic extraction, driver/model_run glue and generators; bytes/HashMap/VecDeque/Instant modelled not verified. Known finding C11-dup-cover (second complete copy re-delivers).",
